@@ -177,7 +177,17 @@ class RxCtx(Ctx):
             "dependencies (icu_*, ahash, std) are opaque and assumed correct and total except for the fixed may-panic table",
             "decided clauses are necessary, not sufficient, conditions of the property (DESIGN.md section 5 'Undecided')",
         ]
-        return base
+        extra = {
+            "C05": [
+                "input and pattern lengths are below isize::MAX/4 (lengths and in-range positions never overflow by themselves)",
+                "POSITION-RANGE: every position handed to matches_iter is at most len(search); it is not a blanket assumption but rests on checked obligations - SEARCH-COVER range|* and bol|at-0 (scan loops), PRECOND-CHECK fixed|position-within-input and floating|range-bounds (preconditions), REPLACE-SCAN/TOKEN-TABLE/ANALYZE-TABLE (API scans), the leaf tables (a leaf yields at most len) - and on every operator passing on only its own position or one a child iterator yielded; arithmetic on the position parameter itself is inventoried and audited against this invariant",
+                "audited sites (rxv/rules/panic_audit.json) are safe for the reason written next to each; a site whose shape changes leaves the audit and is reported",
+            ],
+            "C06": ["termination is argued per loop (LOOP-VARIANT), per recursion cycle (RECURSION-SCC) and from the bounds of the repeat operators (REPEAT-ITER, RELUCTANT-REPEAT); complexity (exponential backtracking) is not bounded"],
+            "C03": ["what a group inside a repetition reports when it did not take part in the last iteration is not decided (the engine mixes keep and reset, the property text allows both readings); only captures of groups on the selected path are claimed"],
+            "C19": ["same reading of 'participation' as for C03"],
+        }
+        return base + extra.get(prop, [])
 
 
 def make(facts_dir, repo="/repo", tier="quick", main_json="regexml.main.json"):
